@@ -20,6 +20,10 @@ open GV
 
 def dispatch (line : String) : String :=
   match (line.splitOn " ").filter (· ≠ "") with
+  | _ :: "guard-crash" :: kind :: rest =>
+    -- the harness process died (panic in a goroutine, fatal error, out of memory) or stopped
+    -- making progress while the code under test was running this case (harness/common.go)
+    s!"SPEC key=implementation-{kind} (the code under test killed or hung the process on this case) {" ".intercalate rest}"
   | "c01" :: rest => Drive.C01.handle rest
   | "c08" :: rest => Drive.C08.handle rest
   | "c15" :: rest => Drive.C15.handle rest
